@@ -255,6 +255,9 @@ func (h *hist) send(toContract bool) {
 	rng := h.rng
 	kp := h.actors[rng.Intn(len(h.actors))]
 	b := &nom.AccountBlock{BlockType: nom.BlockTypeUserSend, Address: kp.Address, TokenStandard: types.ZnnTokenStandard, Amount: big.NewInt(int64(1 + rng.Intn(1000)))}
+	if !toContract {
+		h.payload(b)
+	}
 	if toContract {
 		switch rng.Intn(4) {
 		case 0:
@@ -280,6 +283,45 @@ func (h *hist) send(toContract bool) {
 		what = "contract-call"
 	}
 	h.apply(b, kp, true, what)
+}
+
+// payload: what a send between users carries. A send is a send whatever it carries: the boundary amounts (nothing, one
+// unit, the sender's whole balance), the other coin, the zero token standard (amount 0 only), with and without data.
+func (h *hist) payload(b *nom.AccountBlock) {
+	rng := h.rng
+	switch rng.Intn(8) {
+	case 0, 1: // nothing
+		b.Amount = big.NewInt(0)
+	case 2: // nothing, of no token
+		b.Amount, b.TokenStandard = big.NewInt(0), types.ZeroTokenStandard
+	case 3: // one unit
+		b.Amount = big.NewInt(1)
+	}
+	if rng.Intn(3) == 0 && b.TokenStandard != types.ZeroTokenStandard {
+		b.TokenStandard = types.QsrTokenStandard
+	}
+	if rng.Intn(40) == 0 && b.TokenStandard != types.ZeroTokenStandard { // everything the sender has
+		if bal, err := h.nd.Ch.GetFrontierAccountStore(b.Address).GetBalance(b.TokenStandard); err == nil && bal.Sign() > 0 {
+			b.Amount = bal
+		}
+	}
+	if rng.Intn(4) == 0 { // a message
+		b.Data = make([]byte, 1+rng.Intn(40))
+		rng.Read(b.Data)
+	}
+	kind := "some"
+	switch {
+	case b.Amount.Sign() == 0:
+		kind = "zero"
+	case b.Amount.Cmp(big.NewInt(1)) == 0:
+		kind = "one"
+	}
+	zts := map[types.ZenonTokenStandard]string{types.ZnnTokenStandard: "znn", types.QsrTokenStandard: "qsr", types.ZeroTokenStandard: "zero-zts"}[b.TokenStandard]
+	data := ""
+	if len(b.Data) > 0 {
+		data = ":data"
+	}
+	h.out.Count("c04:user-send-payload:amount-" + kind + ":" + zts + data)
 }
 
 func (h *hist) receive() { h.receiveMode(-1) }
@@ -383,7 +425,7 @@ func (h *hist) replace() {
 		fallthrough
 	default:
 		b.BlockType, b.ToAddress = nom.BlockTypeUserSend, h.actors[rng.Intn(len(h.actors))].Address
-		b.TokenStandard, b.Amount = types.ZnnTokenStandard, big.NewInt(int64(1+rng.Intn(100)))
+		b.TokenStandard, b.Amount = types.ZnnTokenStandard, big.NewInt(int64(rng.Intn(3)*(1+rng.Intn(100))))
 	}
 	h.nd.Fill(b)
 	h.nd.SetPlasma(b)
@@ -508,9 +550,20 @@ func (h *hist) pendingAttempt() {
 	h.event(b, false, code, "generated-from-queue")
 }
 
+// momentum: the node's own producer (sorted content, everything in the pool), or - one in three - a momentum as another
+// producer may build it: the pool blocks listed in a random order the verifier accepts, sometimes only a per-account
+// prefix of them (hz/c04_listed.go). The listed order is the confirmation order.
 func (h *hist) momentum() {
 	before := h.nd.FrontierHeight()
-	h.nd.Momentum()
+	if h.rng.Intn(3) == 0 {
+		unsorted, listed, err := h.nd.MomentumListed(h.rng, h.rng.Intn(3))
+		if err != nil {
+			h.out.Count("c04:listed-momentum-failed:" + err.Error())
+		}
+		h.countListing(unsorted, listed)
+	} else {
+		h.nd.Momentum()
+	}
 	after := h.nd.FrontierHeight()
 	if after != before+1 {
 		h.out.Count("c04:momentum-not-inserted")
@@ -567,6 +620,30 @@ func (h *hist) momentum() {
 	}
 }
 
+// distribution of the listings: sorted or not, and how many sends to one contract from different accounts one listing confirms
+func (h *hist) countListing(unsorted bool, listed []*nom.AccountBlock) {
+	if !unsorted {
+		h.out.Count("c04:momentum-listing:other-producer:same-as-sorted")
+		return
+	}
+	h.out.Count("c04:momentum-listing:other-producer:unsorted")
+	senders := map[types.Address]map[types.Address]bool{}
+	for _, b := range listed {
+		if b.IsSendBlock() && types.IsEmbeddedAddress(b.ToAddress) {
+			if senders[b.ToAddress] == nil {
+				senders[b.ToAddress] = map[types.Address]bool{}
+			}
+			senders[b.ToAddress][b.Address] = true
+		}
+	}
+	for _, m := range senders {
+		if len(m) >= 2 {
+			h.out.Count("c04:momentum-listing:unsorted-with-sends-of-several-accounts-to-one-contract")
+			return
+		}
+	}
+}
+
 // the facts for a block that is already in the pool: evaluate them at its own position
 func (h *hist) checkCaseOfInserted(b *nom.AccountBlock) { h.checkCase(b, 0, "auto-contract-receive") }
 
@@ -614,6 +691,9 @@ func (h *hist) oracle(when string) {
 	ok, d := sc.ReceiveOracleAt(h.enf, func(b *nom.AccountBlock) bool { return h.legacy[b.Hash] })
 	d["when"] = when
 	h.out.Oracle(ok, "c04-receive-once-addressee-fifo", d)
+	ok, d = FifoListedOracle(h.nd.Ch, true)
+	d["when"] = when
+	h.out.Oracle(ok, "c04-fifo-listed-confirmation-order", d)
 }
 
 func (h *hist) finish() {
